@@ -843,6 +843,7 @@ myth_thread_t myth_wsapi_runqueue_peek(int victim,void *ptr,size_t *psize) {
     if (psize)*psize=cs;
     myth_wsqueue_rbarrier();
     s1=wc->seq;
+    if (s1 & 1) { MYTH_VERIF_SPIN(mythv_p_q_peek, wc->seq); } /* a writer is in the middle of an update */
   }while ((s0 & 1)||(s1^s0));
   return ret;
 }
